@@ -5,6 +5,8 @@ pub mod bg4;
 pub mod xorb;
 pub mod shard;
 pub mod deduper;
+pub mod session;
+pub mod reconstruct;
 pub mod singleflight;
 pub mod interp_search;
 
@@ -15,6 +17,9 @@ pub fn run(suite: &str, ctx: &mut Ctx) -> bool {
         "bg4" => bg4::run(ctx),
         "shard" => shard::run(ctx),
         "singleflight" => singleflight::run(ctx),
+        "reconstruct" => reconstruct::run(ctx),
+        "session" => session::run_parent(ctx),
+        "session-child" => session::run_child(ctx),
         "deduper" => deduper::run_parent(ctx),
         "deduper-child" => deduper::run_child(ctx),
         "interp_search" => interp_search::run(ctx),
